@@ -56,6 +56,27 @@ func (p c01) Run(c *core.Ctx) {
 			nm := sc.Nodes[c.Rng.Intn(len(sc.Nodes))].DisplayName()
 			plan[nm] = []world.SubPlan{{Early: true}, {Early: true}, {After: true}, {Before: true}, {Early: true, After: true}, {Early: true, Before: true}, {Early: true, After: true, Same: true}}[c.Rng.Intn(7)]
 		}
+		if c.Rng.Intn(2) == 0 {
+			// service-locator lookups from inside Init; some of them hit a lazy leaf component whose Init
+			// fails (the error is swallowed by the caller). A leaf hands out no early reference, so nothing
+			// of the failed attempt can be held by anybody.
+			AddInitLookups(c.Rng, sc, 0.4)
+			g := &world.G{Rng: c.Rng, Sc: sc}
+			for x := 0; x < c.Rng.Intn(3); x++ {
+				leaf := g.AddNode([]int{8, 7, 14}[c.Rng.Intn(3)], g.FreshName(len(sc.Nodes))) // lazy types with Init
+				if c.Rng.Intn(2) == 0 {
+					sc.Nodes[leaf].Fails = []string{"init"}
+				} else {
+					sc.Nodes[leaf].FailOnce = []string{"init"}
+				}
+				for y := 0; y < 1+c.Rng.Intn(2); y++ {
+					i := c.Rng.Intn(leaf)
+					if ti := world.Palette[sc.Nodes[i].Type]; ti.Init || ti.Aps {
+						sc.Nodes[i].Lookups = append(sc.Nodes[i].Lookups, sc.Nodes[leaf].DisplayName())
+					}
+				}
+			}
+		}
 	} else if c.Index < rc {
 		sc = RandomGraph(c.Rng, GraphOpts{MinN: 3, MaxN: 14, Types: world.TypesAll, PCycle: 0.7, Chords: 2,
 			ByTypeSlice: 0.25, QualSlice: 0.2, ByTypeUniq: 0.2, PUnnamed: 0.3})
@@ -138,7 +159,11 @@ func (p c01) Run(c *core.Ctx) {
 			c.Distinct("shapes_"+strings.ReplaceAll(shape, " ", "_"), sc.GraphSig())
 		}
 		if len(problems) > 0 {
-			c.Fail("", problems[0], failDetail(sc, r, map[string]any{"problems": problems, "substitution_plan": plan}))
+			class := ""
+			if plan != nil && earlyRefOfFailedAttemptEscaped(ev) {
+				class = "F-C01-dependent-of-failed-attempt"
+			}
+			c.Fail(class, problems[0], failDetail(sc, r, map[string]any{"problems": problems, "substitution_plan": plan}))
 			return
 		}
 		if o == 0 && c.WantSample() && shape != "dag" {
